@@ -196,9 +196,9 @@ theorem KeyRepr.eq_trans {a b c : KeyRepr} (h1 : KeyRepr.eq a b = true) (h2 : Ke
   (KeyRepr.cmp_eq_iff a c).1 (KeyRepr.cmp_laws.eq_trans trivial trivial trivial
     ((KeyRepr.cmp_eq_iff a b).2 h1) ((KeyRepr.cmp_eq_iff b c).2 h2))
 
-theorem Key.cmp_laws : OrdLaws (fun _ : Key => True) Key.cmp := KeyRepr.cmp_laws.comap Key.toRepr
+theorem Key.cmp_laws : OrdLaws (fun _ : Key => True) Key.cmpK := KeyRepr.cmp_laws.comap Key.toRepr
 
-theorem Key.cmp_eq_iff (a b : Key) : Key.cmp a b = .eq ↔ Key.eq a b = true :=
+theorem Key.cmp_eq_iff (a b : Key) : Key.cmpK a b = .eq ↔ Key.eq a b = true :=
   KeyRepr.cmp_eq_iff _ _
 
 end Tera
